@@ -82,13 +82,14 @@ def run(chk):
         chk.cov['traces_validated_against_impl'] += len(scheds) - len(mism)
         chk.sample({'prefill': scheds[0]['prefill'], 'keys': scheds[0]['keys'], 'steps': [[s['t'], s['act'], s['key'], s['drop'], s['app']] for s in scheds[0]['steps']]})
     # free-running threads
-    runs = 3 if chk.quick else 16
+    runs = 4 if chk.quick else 17
     traces = []
     nev = 0
     for i in range(runs):
         t = vlib.workfile('c17_log_%d.ndjson' % i)
+        # the last run draws from sizes a lossy cache key would confuse (equal J, equal K', equal low byte)
         rc, out = vlib.run_drv(exe, ['plancache-log', '--out', t, '--seed', chk.seed + i, '--threads', 16, '--reqs', 40 if chk.quick else 150,
-                                     '--sizes', 200 if i % 2 == 0 else 70], timeout=3000)
+                                     '--sizes', 200 if i % 2 == 0 else 70] + (['--collide'] if i == runs - 1 else []), timeout=3000)
         if rc != 0:
             raise vlib.ToolError('plancache-log failed: ' + out[-400:])
         nev += int(out.strip().split('=')[-1])
